@@ -31,32 +31,29 @@ Proof.
   - apply to_upper_idem.
 Qed.
 
-(* ---- argument counts *)
-Lemma parse_args_length fuel : forall n s ln gs st, parse_args fuel n s ln = Ok (gs, st) -> (length gs <= n)%nat.
+(* ---- argument counts (bst.py after fix 135237f: each of the arity groups is required) *)
+Lemma parse_args_length fuel : forall n s ln gs st, parse_args fuel n s ln = Ok (gs, st) -> length gs = n.
 Proof.
   induction n as [|k IH]; intros s ln gs st; cbn [parse_args].
-  - intros H. injection H as <- _. cbn. lia.
-  - destruct (optional [P_LBRACE] s ln) as [[o [s1 ln1]]|c l| |]; cbn [bind]; try discriminate.
-    destruct o as [t|].
-    2:{ intros H. injection H as <- _. cbn. lia. }
+  - intros H. injection H as <- _. reflexivity.
+  - destruct (required [P_LBRACE] false s ln) as [[[p v] [s1 ln1]]|c l| |]; cbn [bind]; try discriminate.
     destruct (parse_group fuel s1 ln1) as [[grp [s2 ln2]]|c l| |]; cbn [bind]; try discriminate.
     destruct (parse_args fuel k s2 ln2) as [[gs' st']|c l| |] eqn:E; cbn [bind]; try discriminate.
-    intros H. injection H as <- _. cbn [fst length]. apply IH in E. lia.
+    intros H. injection H as <- _. cbn [fst length]. apply IH in E. now rewrite E.
 Qed.
 
-Definition arity_at_most (c : command) : Prop := exists n, arity (fst c) = Some n /\ (length (snd c) <= n)%nat.
 Definition arity_exact (c : command) : Prop := arity (fst c) = Some (length (snd c)).
 
-Lemma parse_command_arity fuel s ln c st : parse_command fuel s ln = Ok (c, st) -> arity_at_most c.
+Lemma parse_command_arity fuel s ln c st : parse_command fuel s ln = Ok (c, st) -> arity_exact c.
 Proof.
   unfold parse_command.
   destruct (required [P_NAME] true s ln) as [[[p name] [s1 ln1]]|c0 l| |]; cbn [bind]; try discriminate.
   destruct (arity name) as [n|] eqn:Ear; [|discriminate].
   destruct (parse_args fuel n s1 ln1) as [[gs st']|c0 l| |] eqn:E; cbn [bind]; try discriminate.
-  intros H. injection H as <- _. exists n. cbn [fst snd]. split; [exact Ear|]. now apply parse_args_length in E.
+  intros H. injection H as <- _. unfold arity_exact. cbn [fst snd]. apply parse_args_length in E. now rewrite E.
 Qed.
 
-Lemma parse_loop_arity : forall fuel s ln p, parse_loop fuel s ln = Ok p -> Forall arity_at_most p.
+Lemma parse_loop_arity : forall fuel s ln p, parse_loop fuel s ln = Ok p -> Forall arity_exact p.
 Proof.
   induction fuel as [|f IH]; intros s ln p; cbn [parse_loop]; [discriminate|].
   destruct (parse_command (S (length s)) s ln) as [[c [s1 ln1]]|c0 l| |] eqn:E; try discriminate.
@@ -65,16 +62,7 @@ Proof.
   - destruct (c0 =? cls_eof); [|discriminate]. intros H. injection H as <-. constructor.
 Qed.
 
-(* what does hold: an accepted command never has MORE groups than its arity, and its name is one
-   of the ten *)
-Theorem arity_respected_partial : forall src p, parse_string src = Ok p -> Forall arity_at_most p.
+(* every accepted command bears one of the ten names and has exactly as many groups as its arity
+   (F21, repaired by 135237f: this used to be refuted by FUNCTION {a} READ) *)
+Theorem arity_respected : forall src p, parse_string src = Ok p -> Forall arity_exact p.
 Proof. intros src p H. unfold parse_string, parse_text in H. eapply parse_loop_arity; exact H. Qed.
-
-(* what the property text asks for and the code does not do (F21): a command followed by fewer
-   groups than its arity is accepted when another command follows *)
-Theorem arity_respected_refuted : exists src p, parse_string src = Ok p /\ ~ Forall arity_exact p.
-Proof.
-  exists (s2l "FUNCTION {a} READ"), [ (s2l "FUNCTION", [[TId (s2l "a")]]); (s2l "READ", []) ].
-  split; [vm_compute; reflexivity|].
-  intros H. inversion H as [|? ? Hc _]; subst. vm_compute in Hc. discriminate.
-Qed.
